@@ -147,7 +147,11 @@ CLAIMED = {
         "per-chunk (digest, stored size, size) lists under edits.",
    design_ref="DESIGN.md section 7 C16",
    note="The model is per byte; that the C code's batching is equivalent is validated by correspondence. zstd byte-identity rests on libzstd "
-        "determinism (checked on real outputs, not proved). Termination of the re-examination loop is not proved.",
+        "determinism (checked on real outputs, not proved). Termination of the re-examination loop IS proved (Props/C16Term.lean, sixth "
+        "session): a refused boundary makes the C loop feed the SAME byte to the rolling hash again; after at most 48 such feeds the window holds "
+        "only that byte, and two boundary requests in a row would then need rol(T[b],48) xor T[b] to have bits 1..14 clear, which no entry of "
+        "the table (generated from buzhash.c, checked by the kernel: kb_ok) has; hence feedAuto_terminates (at most W+3 examinations per byte, "
+        "within the model's fuel W+4), run_terminates, closeChunks_total for every legal configuration with the library's constants W=48, bits=15.",
    technique="Lean 4 proof (accumulator/append lemmas over the per-byte chunker, induction over content) + differential correspondence and cross-run comparison"),
  'C01': dict(
    text="Proof (Lean 4) on the models, in three parts that compose: (1) WRITE — for every legal configuration and every sequence of "
@@ -170,7 +174,8 @@ CLAIMED = {
         "inputs with the split string at every alignment around 32 KiB block edges, chunk structure compared with the model of the scanner.",
    design_ref="DESIGN.md section 7a (reader round trip, header round trip) and section 7 C01",
    note="Partial: the per-chunk work of the writer is modelled at the level of whole chunks (Encode.closeFile: entry, checksums, stored form "
-        "from the compressor parameter), not as the incremental buffer machine of comp_write / end_cchunk; termination of the automatic chunker and the scanner's byte-preservation "
+        "from the compressor parameter), not as the incremental buffer machine of comp_write / end_cchunk; the scanner's byte-preservation (termination of the automatic chunker is "
+        "proved: Props/C16Term.lean closeChunks_total / written_back_total, so 'if the calls complete' is discharged) "
         "are not theorems; codec round trip (decomp (comp x) = x) assumed.",
    technique="Lean 4 proof (accounting invariant over write calls; serialiser/parser round trip by positional decoding; reader loop invariant + termination measure over all read schedules) + differential correspondence incl. re-serialisation identity and real CLI tools"),
  'C03': dict(
